@@ -50,6 +50,23 @@ pub fn der(seed: &[u8; 32], form: u8) -> Vec<u8> {
 
 /// Start-up self-test of the hand-written SHA-256 / base64 against ring (and of ring's
 /// sign/verify pair), so that a transcription error in the reference cannot pose as a finding.
+/// Ed25519 seeds: uniformly random, and a share with byte sequences planted that mean something
+/// to DER / PKCS#8 readers (ring's template marker, tags and lengths of the documents' own
+/// fields) - a key is arbitrary bytes and must never be interpreted as structure.
+pub fn seed32() -> impl proptest::strategy::Strategy<Value = [u8; 32]> {
+    use proptest::prelude::*;
+    const MAGIC: [&[u8]; 8] = [&[0xA1, 0x23, 0x03, 0x21], &[0xA1, 0x23, 0x03, 0x21, 0x00], &[0x81, 0x21, 0x00], &[0x30, 0x2e, 0x02, 0x01, 0x00], &[0x30, 0x53, 0x02, 0x01, 0x01], &[0x04, 0x22, 0x04, 0x20], &[0x06, 0x03, 0x2b, 0x65, 0x70], &[0xA0, 0x00]];
+    prop_oneof![
+        6 => any::<[u8; 32]>(),
+        1 => (any::<[u8; 32]>(), 0usize..8, 0usize..32).prop_map(|(mut s, m, at)| {
+            let m = MAGIC[m];
+            let at = at.min(32 - m.len());
+            s[at..at + m.len()].copy_from_slice(m);
+            s
+        }),
+    ]
+}
+
 pub fn self_test() -> Result<(), String> {
     let mut data = vec![];
     for i in 0..300usize {
